@@ -26,7 +26,7 @@ ASSUMPTIONS = ["integer random_state only", "hyperparameter immutability is asse
                "for path(): path() must give the same result when repeated (property text), which implies that it leaves "
                "alpha, dynamic and every other hyperparameter as it found them"]
 EVAL_COUNTER = "histories"
-REQUIRED = {"quick": dict({"histories": 450, "final_states_compared": 420, "side_effect_checks": 1200, "crashed_fits_injected": 60,
+REQUIRED = {"quick": dict({"kauri_precomputed_calls_without_matrix": 5, "histories": 450, "final_states_compared": 420, "side_effect_checks": 1200, "crashed_fits_injected": 60,
                            "paths_in_history": 40, "histories_reconfigured_for_good": 90, "final_paths_compared": 40, "clone_roundtrips": 450, "refits_compared": 400},
                           **{"hist:" + e: 12 for e in gen.ESTIMATORS}),
             "thorough": {"histories": 9000}}
@@ -126,6 +126,8 @@ def run_case(case, ctx, st):
         params["groups"] = None if rng.random() < 0.6 else params.get("groups")
         if params["alpha"] == 0:
             params["alpha"] = 0.05
+    if name == "Kauri" and params.get("kernel") != "precomputed" and rng.random() < 0.35:
+        params["kernel"], pre = "precomputed", "kernel"
     yref = gen.precomputed_for(rng, pre, n)
     is_kauri_pre = name == "Kauri" and params.get("kernel") == "precomputed"
     if is_kauri_pre:
@@ -254,6 +256,8 @@ def run_case(case, ctx, st):
     menu = ["fit_other", "fit_same", "fit_predict", "query", "set_params", "clone", "crash_fit", "sibling"]
     if name in gen.SPARSE and d >= 2:
         menu += ["path", "crash_path", "path"]
+    if is_kauri_pre:
+        menu += ["documented_fallback", "documented_fallback", "documented_fallback"]
     for _ in range(L):
         op = menu[int(rng.integers(0, len(menu)))]
         ops.append(op)
@@ -313,6 +317,15 @@ def run_case(case, ctx, st):
                     fitted = exc is None
                     fitted_on = (X2, y2)
             est.set_params(**{key: old})
+        elif op == "documented_fallback":
+            # documented fall-backs are calls like any other: Kauri(kernel="precomputed") fitted / scored WITHOUT its matrix
+            # warns and uses a linear kernel for that call - the hyperparameter stays "precomputed", later calls with the
+            # matrix use the matrix
+            if is_kauri_pre:
+                guarded(lambda: est.fit(Xref), Xref, None, "fit")
+                guarded(lambda: est.score(Xref), Xref, None, "score")
+                ctx.count("kauri_precomputed_calls_without_matrix")
+                fitted = False
         elif op == "sibling":
             # another object of the same class, configured differently, fitted on the very same arrays in between (what a
             # grid search does): nothing it leaves behind at class or module level may reach this object's next fit
